@@ -152,7 +152,9 @@ impl Property for C10 {
     fn gen(&self, run_seed: u64, _tier: Tier) -> Value {
         let mut rng = Rng::sub(run_seed, "workload");
         let enc = *rng.pick(&ENC_KINDS);
-        let params = GenParams { max_n: 8, allow_removals: false, single_component_pct: 50 };
+        // 1 case in 300 goes up to 11 arguments (an argument with 9 or 10 distinct attackers needs them)
+        let big = rng.chance(1, 300);
+        let params = GenParams { max_n: if big { 11 } else { 8 }, allow_removals: false, single_component_pct: if big { 85 } else { 50 } };
         let draw = |rng: &mut Rng| loop {
             let mut f = gen_framework(rng, &params);
             if f.route == Route::ApiString || f.route == Route::ApxText {
@@ -163,6 +165,9 @@ impl Property for C10 {
                 s.apply(u);
             }
             if matches!(enc, EncKind::ExpComplete) && max_defender_product(&s) > 2000 {
+                continue;
+            }
+            if big && s.live.len() < 9 {
                 continue;
             }
             return f;
